@@ -854,12 +854,16 @@ def apply_impl(c: Circuit, call) -> Outcome:
         if k == 'add':
             return Outcome('C', snap(c + circ_from_snap(call[1])))
         if k == 'iadd':
-            c.__iadd__(circ_from_snap(call[1]))
+            r = c.__iadd__(circ_from_snap(call[1]))
+            if r is not c:   # `c += x` rebinds c to the returned value
+                return Outcome('E', 'Internal:OperatorContract:__iadd__ did not return self')
             return Outcome('U')
         if k == 'mul':
             return Outcome('C', snap(c * call[1]))
         if k == 'imul':
-            c.__imul__(call[1])
+            r = c.__imul__(call[1])
+            if r is not c:
+                return Outcome('E', 'Internal:OperatorContract:__imul__ did not return self')
             return Outcome('U')
         if k == 'fold':
             from bqskit.ir.region import CircuitRegion
